@@ -14,6 +14,7 @@ struct TrackedStats {
     int next_serial = 1;
     bool windows = true;             // scheduling point inside each access window
     bool dtor_hb_exempt = false;     // payload lifetime is managed by real (unmodelled) std::shared_ptr reference counts
+    bool move_empties = true;        // a move leaves the source holding Tracked::MOVED
     // family hooks: called on every read / write of any Tracked (after the HB check)
     void (*hook_read)(const struct Tracked*, uint64_t) = nullptr;
     void (*hook_set)(const struct Tracked*, uint64_t) = nullptr;
@@ -46,11 +47,21 @@ struct Tracked {
         uint64_t v = o.read();
         w1 = w2 = v; born();
     }
-    Tracked(Tracked&& o) {
+    // Moving steals the state: the source is left holding the MOVED marker (like a std::string / vector that was moved from).
+    // Reading a payload in that state through the harness's accessors is reported: no correct use of the library leaves a
+    // protected object, a list element or a returned value moved-from.
+    static constexpr uint64_t MOVED = 0x4D4F5645444D4F56ull;
+    void mark_moved() {
+        if (!tstats().move_empties) return;
+        hb_write(sh, "payload (moved from)");
+        if (tstats().hook_set) tstats().hook_set(this, MOVED);
+        w1 = w2 = MOVED;
+    }
+    Tracked(Tracked&& o) {                  // no fault point: the fault plan covers copies and copy-assignments ("copy or assignment throws")
         tstats().copies++;
-        fault_point(F_COPY);
-        uint64_t v = o.read();
+        uint64_t v = o.read_any();
         w1 = w2 = v; born();
+        o.mark_moved();
     }
     Tracked& operator=(const Tracked& o) {
         tstats().assigns++;
@@ -61,9 +72,9 @@ struct Tracked {
     }
     Tracked& operator=(Tracked&& o) {
         tstats().assigns++;
-        fault_point(F_ASSIGN);
-        uint64_t v = o.read();
+        uint64_t v = o.read_any();
         set(v);
+        if (&o != this) o.mark_moved();
         return *this;
     }
     ~Tracked() {
@@ -78,6 +89,11 @@ struct Tracked {
         canary = DEAD; tstats().dtor++;
     }
     uint64_t read() const {
+        uint64_t v = read_any();
+        if (v == MOVED && tstats().move_empties) fail("moved-from-value", "a payload object was observed in its moved-from state");
+        return v;
+    }
+    uint64_t read_any() const {
         alive("payload read");
         hb_read(sh, "payload");
         uint64_t a = w1;
@@ -109,7 +125,6 @@ struct Tracked {
         if (canary != ALIVE) fail("use-after-destroy", "payload destroyed during a write");
         w2 = b | bits;
     }
-    uint64_t read_nofault() const { return read(); }
     // unchecked peek for oracles (no window, no HB): only for the harness's own end-of-case inspection
     uint64_t peek() const { return w1; }
     bool operator==(const Tracked& o) const {
@@ -128,8 +143,8 @@ struct TrackedNX {
     explicit TrackedNX(uint64_t v) : t(v) {}
     TrackedNX(const TrackedNX&) = default;
     TrackedNX& operator=(const TrackedNX&) = default;
-    TrackedNX(TrackedNX&& o) noexcept : t(o.t.read_nofault()) {}
-    TrackedNX& operator=(TrackedNX&& o) noexcept { t.set(o.t.read_nofault()); return *this; }
+    TrackedNX(TrackedNX&& o) noexcept : t(o.t.read_any()) { o.t.mark_moved(); }
+    TrackedNX& operator=(TrackedNX&& o) noexcept { t.set(o.t.read_any()); if (&o != this) o.t.mark_moved(); return *this; }
     uint64_t read() const { return t.read(); }
     void set(uint64_t v) { t.set(v); }
     void or_bits(uint64_t b) { t.or_bits(b); }
